@@ -825,3 +825,163 @@ Theorem C03_histz_example_run :
 Proof. exact (conj exz_preA (conj exz_runA (conj (proj1 exz_stA_shape) (conj (proj1 (proj2 exz_stA_shape)) exz_wfA)))). Qed.
 Print Assumptions C03_histz_example_run.
 
+
+(** ** ALL histories, MTBDD kind with integer terminals (HISTz part M): the MTBDD manager state machine of
+    Mgr/HistoryM.v - 10 kinds of calls: constant, var, the six binary operators (add, sub, mul, div, min,
+    max), ite, restrict, clone, drop, gc (inner nodes AND unreferenced terminals), add_vars,
+    set_var_order - from the empty MTBDD manager (no terminal yet), for every operand order [gt] and every
+    cache that only serves what was added ([lossy]). *)
+From Coq Require Import Bool List NArith ZArith PArith FMapPositive.
+From OxiVerif Require Import DD.Sem DD.Build DD.Apply DD.ApplyProofs DD.ConfigApply Num.I64 DD.ApplyMtbdd DD.ApplyMtbddBase
+  DD.ApplyMtbddProofs DD.ApplyMtbddTop Mgr.HistoryExamples
+  Mgr.HistoryM Mgr.HistoryMBase Mgr.HistoryMProofs Mgr.HistoryMThms Mgr.HistoryMSpec Mgr.HistoryMTie Mgr.HistoryMExamples.
+
+(* what "reachable" means: the state after a history of well-formed requests from the empty MTBDD manager *)
+Theorem C03_histm_reach_unfold :
+  forall (gt : ref -> ref -> bool) (C : Type) (cget : C -> N -> list ref -> option ref)
+  (cadd : C -> N -> list ref -> ref -> C) (cempty : C) (n : nat) (st : hstate_m C),
+  hreach_m gt C cget cadd cempty n st <->
+  exists ops, mhops_pre gt C cget cadd cempty (hinit_m C cempty n) ops /\
+  hrun_m gt C cget cadd cempty (hinit_m C cempty n) ops = Some st.
+Proof. exact (fun gt C cget cadd cempty n st => iff_refl _). Qed.
+Print Assumptions C03_histm_reach_unfold.
+
+(* the invariant: well-formed MTBDD table (incl. terminal ids and values pairwise distinct, values in the range of I64), valid cache *)
+Theorem C03_histm_inv_unfold :
+  forall (C : Type) (cget : C -> N -> list ref -> option ref) (st : hstate_m C),
+  HInvM C cget st <-> MtOK (hm_s C st) /\ MCacheOK cget (hm_s C st) (hm_c C st).
+Proof. exact hinvm_unfold. Qed.
+Print Assumptions C03_histm_inv_unfold.
+
+Theorem C03_histm_init_inv :
+  forall (C : Type) (cget : C -> N -> list ref -> option ref) (cempty : C),
+  (forall (k : N) (a : list ref), cget cempty k a = None) -> forall n : nat, HInvM C cget (hinit_m C cempty n).
+Proof. exact hinit_m_inv. Qed.
+Print Assumptions C03_histm_init_inv.
+
+(* one call of any kind: completes, re-establishes the invariant, frame, result *)
+Theorem C03_histm_step :
+  forall (gt : ref -> ref -> bool) (C : Type) (cget : C -> N -> list ref -> option ref)
+  (cadd : C -> N -> list ref -> ref -> C),
+  lossy cget cadd ->
+  forall cempty : C,
+  (forall (k : N) (a : list ref), cget cempty k a = None) ->
+  forall (st : hstate_m C) (o : mhop),
+  HInvM C cget st ->
+  mhop_pre C st o ->
+  exists st' : hstate_m C,
+  hstep_m gt C cget cadd cempty st o = Some st' /\ HInvM C cget st' /\ hframe_m C st o st' /\ hpost_m C st o st'.
+Proof. exact hstep_m_ok. Qed.
+Print Assumptions C03_histm_step.
+
+Theorem C03_histm_run_ok :
+  forall (gt : ref -> ref -> bool) (C : Type) (cget : C -> N -> list ref -> option ref)
+  (cadd : C -> N -> list ref -> ref -> C),
+  lossy cget cadd ->
+  forall cempty : C,
+  (forall (k : N) (a : list ref), cget cempty k a = None) ->
+  forall (ops : list mhop) (st : hstate_m C),
+  HInvM C cget st ->
+  mhops_pre gt C cget cadd cempty st ops ->
+  exists st' : hstate_m C, hrun_m gt C cget cadd cempty st ops = Some st' /\ HInvM C cget st'.
+Proof. exact hrun_m_ok. Qed.
+Print Assumptions C03_histm_run_ok.
+
+Theorem C03_histm_never_stuck :
+  forall (gt : ref -> ref -> bool) (C : Type) (cget : C -> N -> list ref -> option ref)
+  (cadd : C -> N -> list ref -> ref -> C),
+  lossy cget cadd ->
+  forall cempty : C,
+  (forall (k : N) (a : list ref), cget cempty k a = None) ->
+  forall (n : nat) (st : hstate_m C) (o : mhop),
+  hreach_m gt C cget cadd cempty n st ->
+  mhop_pre C st o ->
+  exists st' : hstate_m C,
+  hstep_m gt C cget cadd cempty st o = Some st' /\
+  hreach_m gt C cget cadd cempty n st' /\ hframe_m C st o st' /\ hpost_m C st o st'.
+Proof. exact histm_progress. Qed.
+Print Assumptions C03_histm_never_stuck.
+
+(* the property: after ANY history the MTBDD table passes the structural checkers run on real snapshots *)
+Theorem C03_histm_wf :
+  forall (gt : ref -> ref -> bool) (C : Type) (cget : C -> N -> list ref -> option ref)
+  (cadd : C -> N -> list ref -> ref -> C),
+  lossy cget cadd ->
+  forall cempty : C,
+  (forall (k : N) (a : list ref), cget cempty k a = None) ->
+  forall (n : nat) (st : hstate_m C),
+  hreach_m gt C cget cadd cempty n st -> wf_b (hm_s C st) = true /\ mt_ok_b (hm_s C st) = true.
+Proof. exact histm_wf. Qed.
+Print Assumptions C03_histm_wf.
+
+(* a collection inside a history: slots and functions kept; every kept node and every kept TERMINAL is an old one that is still referenced (no dangling terminal, no garbage) *)
+Theorem C03_histm_gc :
+  forall (gt : ref -> ref -> bool) (C : Type) (cget : C -> N -> list ref -> option ref)
+  (cadd : C -> N -> list ref -> ref -> C),
+  lossy cget cadd ->
+  forall cempty : C,
+  (forall (k : N) (a : list ref), cget cempty k a = None) ->
+  forall st st' : hstate_m C,
+  HInvM C cget st ->
+  hstep_m gt C cget cadd cempty st MHGc = Some st' ->
+  HInvM C cget st' /\
+  s_handles (hm_s C st') = s_handles (hm_s C st) /\
+  (forall (x : N) (e : edge),
+  hget (s_handles (hm_s C st)) x = Some e ->
+  ref_ok (hm_s C st') (eref e) /\ (forall a : asg, mfun_of (hm_s C st') (eref e) a = mfun_of (hm_s C st) (eref e) a)) /\
+  (forall (id : positive) (nd : node),
+  find_node (hm_s C st') id = Some nd ->
+  find_node (hm_s C st) id = Some nd /\ (exists r : ref, mroot C st r /\ reachable (hm_s C st) (r :: nil) (RN id))) /\
+  (forall t c : N,
+  term_val (hm_s C st') t = Some c ->
+  term_val (hm_s C st) t = Some c /\
+  (mroot C st (RT t) \/
+  (exists (id : positive) (nd : node) (e : edge),
+  find_node (hm_s C st') id = Some nd /\ In e (nchildren nd) /\ eref e = RT t))).
+Proof. exact histm_gc. Qed.
+Print Assumptions C03_histm_gc.
+
+Theorem C03_histm_pre_checker :
+  forall (C : Type) (cget : C -> N -> list ref -> option ref) (st : hstate_m C) (o : mhop),
+  HInvM C cget st -> mhop_pre_b C st o = true -> mhop_pre C st o.
+Proof. exact mhop_pre_b_sound. Qed.
+Print Assumptions C03_histm_pre_checker.
+
+Theorem C03_histm_run_checked :
+  forall (gt : ref -> ref -> bool) (C : Type) (cget : C -> N -> list ref -> option ref)
+  (cadd : C -> N -> list ref -> ref -> C),
+  lossy cget cadd ->
+  forall cempty : C,
+  (forall (k : N) (a : list ref), cget cempty k a = None) ->
+  forall (n : nat) (ops : list mhop),
+  mhops_pre_b gt C cget cadd cempty (hinit_m C cempty n) ops = true ->
+  exists st : hstate_m C,
+  hrun_m gt C cget cadd cempty (hinit_m C cempty n) ops = Some st /\ hreach_m gt C cget cadd cempty n st.
+Proof. exact hrun_m_checked. Qed.
+Print Assumptions C03_histm_run_checked.
+
+(* non-vacuity: a history of 28 calls through all 10 kinds, accepted by the checker, computed *)
+Theorem C03_histm_example_cover :
+  forallb (fun t => existsb (fun o => Nat.eqb (mhop_tag o) t) exm_ops) (seq 0 10) = true /\ length exm_ops = 28.
+Proof. exact exm_ops_cover. Qed.
+Print Assumptions C03_histm_example_cover.
+
+Theorem C03_histm_example_run :
+  mhops_pre_b mgtA acache ac_get ac_add nil (hinit_m acache nil 3) exm_ops = true /\
+  hrun_m mgtA acache ac_get ac_add nil (hinit_m acache nil 3) exm_ops = Some exm_stA /\
+  PositiveMap.cardinal (s_nodes (hm_s acache exm_stA)) = 21 /\
+  length (s_terms (hm_s acache exm_stA)) = 6 /\
+  wf_b (hm_s acache exm_stA) = true /\ mt_ok_b (hm_s acache exm_stA) = true.
+Proof. exact (conj exm_preA (conj exm_runA (conj (proj1 exm_stA_shape) (conj (proj1 (proj2 exm_stA_shape)) exm_wfA)))). Qed.
+Print Assumptions C03_histm_example_run.
+
+(* the first collection of that history removes 6 of 19 inner nodes and 2 of 6 terminals *)
+Theorem C03_histm_example_gc :
+  PositiveMap.cardinal (s_nodes (hm_s acache exm_st19)) = 19 /\
+  length (s_terms (hm_s acache exm_st19)) = 6 /\
+  PositiveMap.cardinal (s_nodes (hm_s acache exm_st20)) = 13 /\
+  length (s_terms (hm_s acache exm_st20)) = 4 /\
+  term_val (hm_s acache exm_st19) 6 = Some (code (INum (-1))) /\ term_val (hm_s acache exm_st20) 6 = None.
+Proof. exact exm_gc_counts. Qed.
+Print Assumptions C03_histm_example_gc.
+
